@@ -43,6 +43,10 @@ SX_LOOK = {
 # calls whose result is (a copy of / a reference to) their first argument
 SX_IDENT = {'clone', 'cloned', 'copied', 'as_ref', 'as_mut', 'deref', 'deref_mut', 'borrow', 'borrow_mut', 'to_owned', 'as_deref',
             'as_deref_mut', 'into', 'from', 'must_use', 'as_slice', 'as_str', 'into_owned', 'as_mut_slice', 'black_box', 'identity'}
+# iterator consumers the normal form may leave as calls (the others are loops there), adaptors looked through by Sx.pipeline
+SX_CONSUMERS = {'unzip', 'collect', 'partition', 'count', 'last', 'max', 'min', 'max_by', 'min_by', 'max_by_key', 'min_by_key', 'sum', 'product', 'nth', 'reduce'}
+SX_CLOSURE_ADAPTORS = {'map', 'filter', 'filter_map', 'inspect', 'map_while', 'take_while', 'skip_while', 'flat_map'}
+SX_ADAPTORS = SX_CLOSURE_ADAPTORS | {'enumerate', 'zip', 'rev', 'skip', 'take', 'step_by', 'chain', 'cloned', 'copied', 'peekable', 'by_ref', 'into_iter', 'fuse'}
 SX_OPT_RE = re.compile(r'^std::(option::Option|result::Result)::<.*>::(\w+)(::<.*>)?$')
 
 
@@ -93,6 +97,36 @@ def sx_mentions(path, v, target, depth=3):
     return False
 
 
+def sx_derives(path, v, pred, depth=2):
+    """does value `v` contain a sub-value satisfying `pred`, directly or through a collection (Vec::new() ...) that received
+    such a value by push / insert / extend on this path"""
+    nodes = set(sx_walk(v))
+    if any(pred(x) for x in nodes): return True
+    if depth <= 0: return False
+    for e in path.events:
+        if e[0] == 'call' and e[1] in ('push', 'insert', 'push_back', 'extend') and e[3]:
+            r = e[3][0]; tgt = path.env.get(r[1]) if r[0] == 'lref' else sx_strip(r)
+            if tgt in nodes and any(sx_derives(path, a, pred, depth - 1) for a in e[3][1:]): return True
+    return False
+
+
+def sx_as_agg(v, adt):
+    """a value of struct type `adt` as ('agg', adt, fields, values): built by a struct expression, or by `T::default()` / a struct
+    expression followed by field assignments (`let mut c = T::default(); c.id = id; ..`)"""
+    v = sx_strip(v) if v is not None else ('undef', 0)
+    if v[0] == 'agg' and v[1].endswith(adt): return v
+    if v[0] != 'upd': return None
+    ups = {}; x = v
+    while x[0] == 'upd':
+        ups.setdefault(x[2], x[3]); x = sx_strip(x[1])
+    if x[0] == 'agg' and x[1].endswith(adt):
+        d = dict(zip(x[2], x[3])); d.update(ups)
+    elif x[0] == 'call' and adt in x[2] and x[1] in ('default', 'new'):
+        d = ups
+    else: return None
+    return ('agg', adt, tuple(d.keys()), tuple(d.values()))
+
+
 def sx_calls(v, item=None):
     return [x for x in sx_walk(v) if x[0] == 'call' and (item is None or x[1] == item)]
 
@@ -132,6 +166,7 @@ class SxOracle:
     def variant(self, sx, v, st): return None        # 'Some' / 'None' / 'Ok' / ... of an opaque value
     def num(self, sx, v, st): return None            # concrete number of a symbolic leaf
     def call(self, sx, node, st): return None        # value of a call (e.g. const bool of `set.contains(k)`)
+    def discr(self, sx, v, st): return None          # discriminant (int) of an opaque enum value
 
 
 class SxState:
@@ -276,6 +311,8 @@ class Sx:
         v = sx_strip(v)
         a = st.assume.get(('discr', v))
         if a is not None: return a
+        a = self.o.discr(self, v, st)
+        if a is not None: return a
         if v[0] == 'agg' and '::' in v[1]:
             n = v[1].split('::')[-1]; en = v[1].rsplit('::', 1)[0]
             if en.endswith('option::Option'): return {'None': 0, 'Some': 1}.get(n)
@@ -296,6 +333,8 @@ class Sx:
         if k == 'const':
             t = v[1]
             if t in ('true', 'false'): return t == 'true'
+            if t in self.F.consts:                                   # a named constant of the crate
+                return T.f64_const(self.F.consts[t][1])
             m = re.search(r'([\w:]+)::(\w+)::\{constant#0\}$', t)           # `Enum::Variant as i32`: the explicit discriminant of the variant
             if m:
                 a_ = self.F.adt(m.group(1))
@@ -305,6 +344,12 @@ class Sx:
             return T.f64_const(t)
         if k == 'ref': return self.conc(v[1], st)
         if k == 'cast': return self.conc(v[2], st)
+        if k == 'discr':                                             # `Enum::Variant as i32` on a value: discriminant of a known variant
+            i = self.variant_index(v[1], st)
+            return float(i) if isinstance(i, int) else None
+        if k == 'agg' and not v[3] and '::' in v[1] and v[1] != 'tuple':
+            i = self.variant_index(v, st)
+            return float(i) if isinstance(i, int) else None
         if k == 'field' and v[2] == '0' and v[1][0] == 'bin' and v[1][1].endswith('WithOverflow'): return self.conc(v[1], st)     # (value, overflowed).0
         if k == 'bin':
             r = self.o.num(self, v, st)
@@ -458,6 +503,21 @@ class Sx:
                     r = self.apply(args[1], [self.payload(oo)], st)
                     if r is not None: return ('agg', some, ('0',), (r,))
                 if g is False: return oo
+            elif meth == 'map_err' and len(args) == 2 and not isopt:
+                if g is True: return oo
+                if g is False:
+                    r = self.apply(args[1], [self.field(oo, '0', 'Err')], st)
+                    if r is not None: return ('agg', 'std::result::Result::Err', ('0',), (r,))
+            elif meth == 'ok' and not isopt:                                  # Result -> Option, same payload
+                if g is True: return ('agg', 'std::option::Option::Some', ('0',), (self.payload(oo),))
+                if g is False: return ('agg', 'std::option::Option::None', (), ())
+            elif meth == 'flatten' and isopt:
+                if g is True: return self.payload(oo)
+                if g is False: return oo
+            elif meth == 'zip' and len(args) == 2 and isopt:
+                g2 = self.good(args[1], st)
+                if g is True and g2 is True: return ('agg', some, ('0',), (('agg', 'tuple', (), (self.payload(oo), self.payload(args[1]))),))
+                if g is False or g2 is False: return ('agg', 'std::option::Option::None', (), ())
             elif meth == 'and_then' and len(args) == 2:
                 if g is True:
                     r = self.apply(args[1], [self.payload(oo)], st)
@@ -496,7 +556,48 @@ class Sx:
             return node
         if item in SX_IDENT and args:
             return self.deref(args[0], st) if args[0][0] in ('ref', 'lref') else args[0]
+        tr = ri.get('trait') or ''
+        if args and ((tr == 'std::iter::Iterator' and item in SX_CONSUMERS) or (tr.endswith('FromIterator') and item == 'from_iter') or (tr.endswith('Extend') and item == 'extend' and len(args) == 2)):
+            self.pipeline(node, args[1] if item == 'extend' else args[0], st)
         return node
+
+    def pipeline(self, node, it, st):
+        """an iterator pipeline `base.map(f).filter(g)...` consumed by a call the normal form does not turn into a loop (unzip,
+        partition, max_by_key, a collect into an unknown collection, ...): the closures are applied to ONE generic item and the
+        result is recorded as event ('yield', value | None, bb, flags, consumer name, base)"""
+        chain = []; cur = sx_strip(it)
+        while cur[0] == 'call' and cur[3] and cur[1] in SX_ADAPTORS:
+            chain.append(cur); cur = sx_strip(cur[3][0])
+        chain.reverse()
+        if not any(c[1] in SX_CLOSURE_ADAPTORS for c in chain): return
+        v = ('field', ('call', 'next', '<pipeline item>', (cur,), node[4], node[5]), '0', 'payload'); flags = []
+        for c in chain:
+            k = c[1]
+            if k not in SX_CLOSURE_ADAPTORS or len(c[3]) < 2:
+                if k in RESTRICTING: flags.append('restricted:' + k)
+                if v is not None and k == 'enumerate': v = ('agg', 'tuple', (), (('call', 'index-of', '<enumerate>', (v,), c[4], c[5]), v))
+                if v is not None and k == 'zip' and len(c[3]) == 2: v = ('agg', 'tuple', (), (v, ('field', ('call', 'next', '<zipped>', (c[3][1],), c[4], c[5]), '0', 'payload')))
+                continue
+            if v is None: break
+            if k == 'map':
+                v = self.apply(c[3][1], [v], st)
+            elif k == 'inspect':
+                self.apply(c[3][1], [('ref', v)], st)
+            elif k == 'filter':
+                r = self.apply(c[3][1], [('ref', v)], st); cc = self.conc(r, st) if r is not None else None
+                if cc is False: flags.append('skipped')
+                elif cc is not True: flags.append('maybe-skipped')
+            elif k == 'filter_map':
+                r = self.apply(c[3][1], [v], st)
+                if r is None: v = None
+                else:
+                    g = self.good(r, st)
+                    if g is False: flags.append('skipped')
+                    elif g is None: flags.append('maybe-skipped')
+                    v = self.payload(r)
+            else:
+                flags.append('restricted:' + k); v = None
+        st.events.append(('yield', v, node[4], tuple(flags), node[2], cur))
 
     # ---------------------------------------------------------------- statements
     def stmt(self, s, st):
@@ -700,6 +801,31 @@ def sx_loop_paths(ctx, rule, template, body, oracle, lo):
     return out
 
 
+class FailCase(SxOracle):
+    """the calls selected by `pred` (on the symbolic call node) fail: their Result is Err / their Option is None"""
+    def __init__(self, pred, bad='Err'): self.pred = pred; self.bad = bad
+
+    def variant(self, sx, v, st):
+        return self.bad if v[0] == 'call' and self.pred(v) else None
+
+
+def failure_is_error(ctx, rule, template, b, pred, bad, err_adt=None):
+    """T-ERRFLOW on paths: when a call selected by `pred` fails (Err / None), every path of the function through it returns Err
+    (with an `err_adt` value inside, if given).  `x?`, `match`, `let .. else`, `ok_or(..)?`, a `?` inside an extracted helper whose
+    Result is `?`-ed again by the caller: all the same here.  Returns (sites seen, problems)."""
+    ps = sx_paths(ctx, rule, template, b, FailCase(pred, bad))
+    if ps is None: return None
+    sx = Sx(ctx, b, FailCase(pred, bad)); seen = 0; probs = []
+    for p in ps:
+        if p.end not in ('return', 'stop'): continue
+        if not any(e[0] == 'call' and pred(('call', e[1], e[2], e[3], e[4], 0)) for e in p.events): continue
+        seen += 1
+        v = p.value if p.value is not None else ('undef', 0)
+        if p.end != 'return' or sx.variant(v, p) != 'Err': probs.append('the function goes on (%s)' % ('returns ' + sx_str(v, 2) if p.end == 'return' else 'no return'))
+        elif err_adt and not any(x[0] == 'agg' and x[1].endswith(err_adt) for x in sx_walk(v)): probs.append('the error is not %s' % (err_adt if isinstance(err_adt, str) else '/'.join(err_adt)).split('::')[-1])
+    return seen, sorted(set(probs))
+
+
 def lookup_is_typed_error(ctx, b, c, variant):
     """the None outcome of lookup `c` is reported as MpsParseError::<variant>.  Equivalent idioms:
          c.ok_or(E)?                     the error value is the argument
@@ -795,8 +921,11 @@ class KeywordCase(SxOracle):
 
 
 def _line_fields(v):
-    """which fields of the line (`fields[k]`) a value is computed from"""
-    return sorted({a[1] for c in sx_calls(v, 'index') for a in c[3][1:] if a[0] == 'const' and re.fullmatch(r'\d+_usize', a[1])})
+    """which fields of the line a value is computed from: `fields[k]` on a Vec (an Index::index call) or on a slice (an index
+    projection with a constant)"""
+    out = {a[1] for c in sx_calls(v, 'index') for a in c[3][1:] if a[0] == 'const' and re.fullmatch(r'\d+_usize', a[1])}
+    out |= {x[2][1] for x in sx_walk(v) if x[0] == 'index' and x[2][0] == 'const' and re.fullmatch(r'\d+_usize', x[2][1])}
+    return sorted(out)
 
 
 def keyword_effects(ctx, rule, b, true, val, flags=None, objrow=None):
@@ -886,7 +1015,7 @@ def ranges_rules(ctx, b):
     ctx.check(seen > 0 and not second, R + '/second-row-created', 'T-BRANCHFX', b.name, 'the second row (coefficients copied from the ranged row, and its right-hand side) is not created (%s)' % ', '.join(second[:3]), b.site(nextc.bb))
     # every pair of the line is processed
     si = ctx.S.slice_operand(b, nextc.args[0])
-    restr = sorted({x.item for x in si.call_objs if x.item in RESTRICTING and 'Iterator' in (x.trait or '')})
+    restr = sorted({x.item for x in si.call_objs if x.item in RESTRICTING and x.item not in ('step_by', 'skip') and 'Iterator' in (x.trait or '')})      # stepping over indices / skipping the set name is how pairs are formed
     ctx.check(not restr and 2 in si.params, R + '/every-pair', 'T-LOOPMUST', b.name, 'the loop over the pairs of the line is restricted by %s' % restr, b.site(nextc.bb))
 
 
@@ -984,6 +1113,46 @@ def column_rules(ctx, b):
     ctx.check(n > 0 and not objp, 'C17.columns/objective-vs-constraint', 'T-BRANCHFX', b.name, 'entries of the objective row must go to c, all others to the declared row of a: %s' % '; '.join(objp[:2]), b.site())
 
 
+class DispatchCase(SxOracle):
+    """from_lines: the cursor stands at section `idx`, no OBJSENSE line is pending; with `fail` the section reader returns Err"""
+    def __init__(self, idx, fail=False): self.idx = idx; self.fail = fail
+
+    def discr(self, sx, v, st):
+        return self.idx if v[0] == 'field' and v[2] == 'cursor' and v[3].endswith('parser::State') else None
+
+    def num(self, sx, v, st):
+        return False if v[0] == 'field' and v[2] == 'is_waiting_objsense_line' and v[3].endswith('parser::State') else None
+
+    def variant(self, sx, v, st):
+        return 'Err' if self.fail and v[0] == 'call' and v[1].startswith('read_') and v[1].endswith('_field') else None
+
+
+def dispatch_rules(ctx, R, b):
+    """per section the cursor stands at, one data line goes to that section's reader (and to no other), the reader's error is
+    the function's error, a data line before any section is InvalidHeader -- decided on the calls made per case"""
+    cur = ctx.F.adt('mps::parser::Cursor')
+    want = {'Rows': 'read_row_field', 'Columns': 'read_column_field', 'Rhs': 'read_rhs_field', 'Ranges': 'read_range_field', 'Bounds': 'read_bound_field'}
+    def is_reader(c): return c.item.startswith('read_') and c.item.endswith('_field')
+    loops = sorted([lo for lo in T.for_loops(b) if any(c.bb in lo[4] and is_reader(c) for c in b.calls)], key=lambda lo: -len(lo[4]))
+    if not cur or not loops:
+        ctx.bad(R + '/dispatch', 'T-BRANCHFX', b.name, 'no loop over the lines that calls the section readers', b.site()); return
+    got = {}; dropped = []; name_err = False
+    for v in cur['variants']:
+        for fail in (False, True):
+            ps = sx_loop_paths(ctx, R + '/dispatch', 'T-BRANCHFX', b, DispatchCase(v['discr'], fail), loops[0])
+            if ps is None: return
+            sx = Sx(ctx, b, DispatchCase(v['discr'], fail))
+            for p in ps:
+                rd = [e[1] for e in p.events if e[0] == 'call' and e[1].startswith('read_') and e[1].endswith('_field')]
+                if not fail: got.setdefault(v['name'], set()).update(rd)
+                elif rd and p.end in ('stop', 'return') and not (p.end == 'return' and p.value is not None and sx.variant(p.value, p) == 'Err'): dropped.append(v['name'])
+                if v['name'] == 'Name' and p.end == 'return' and p.value is not None and any(x[0] == 'agg' and x[1].endswith('MpsParseError::InvalidHeader') for x in sx_walk(p.value)): name_err = True
+    got = {k: (sorted(x)[0] if len(x) == 1 else (sorted(x) or None)) for k, x in got.items()}
+    ctx.check({k: got.get(k) for k in want} == want and got.get('End') is None, R + '/dispatch', 'T-BRANCHFX', b.name, 'section dispatch is %s' % got, b.site(), table=str(got))
+    ctx.check(bool(got) and not dropped, R + '/dispatch/errors-propagate', 'T-ERRFLOW', b.name, 'the error of the section reader is dropped in sections %s' % sorted(set(dropped)), b.site())
+    ctx.check(got.get('Name') is None and name_err, R + '/dispatch/data-before-section', 'T-TABLE', b.name, 'a data line before any section is not an error', b.site())
+
+
 def parser_rules(ctx):
     R = 'C17.keywords'
     b = ctx.method(R + '/sense/anchor', 'mps::parser::ObjSense', 'from_str', trait='FromStr')
@@ -1011,31 +1180,14 @@ def parser_rules(ctx):
     if len(fl) != 1: ctx.lost(R + '/dispatch', 'Mps::from_lines')
     else:
         b = ctx.fn(fl[0])
-        cur = ctx.F.adt('mps::parser::Cursor')
-        want = {'Rows': 'read_row_field', 'Columns': 'read_column_field', 'Rhs': 'read_rhs_field', 'Ranges': 'read_range_field', 'Bounds': 'read_bound_field'}
-        got = {}
-        for bi in b.live:
-            t = b.blocks[bi]['term']
-            if t['k'] == 'switch' and t['d']['k'] != 'const' and cur:
-                for k2, b2, d in b.defs_of(t['d']['pl']['l']):
-                    if k2 == 'stmt' and d['rv']['k'] == 'discr' and (ST, 'cursor') in fields_of_place(d['rv']['pl']):
-                        m = {v: tg for v, tg in t['ts']}
-                        for v in cur['variants']:
-                            tg = m.get(v['discr'], t['else'])
-                            others = {m.get(x['discr'], t['else']) for x in cur['variants']} - {tg}
-                            reg = b.reach([tg], stop=others | set(b.loops()))
-                            rd = sorted({c.item for c in b.calls if c.bb in reg and c.item.startswith('read_')})
-                            got[v['name']] = rd[0] if len(rd) == 1 else (rd or None)
-        ctx.check({k: got.get(k) for k in want} == want, R + '/dispatch', 'T-BRANCHFX', b.name, 'section dispatch is %s' % got, b.site(), table=str(got))
-        rds = [c for c in b.calls if c.item.startswith('read_')]
-        errflow_calls(ctx, R + '/dispatch/errors-propagate', b, rds, 'section reader')
-        ctx.check(got.get('Name') is None and any(st['rv']['k'] == 'agg' and st['rv']['adt'].endswith('MpsParseError::InvalidHeader') for bi, st in b.stmts()), R + '/dispatch/data-before-section', 'T-TABLE', b.name, 'a data line before any section is not an error', b.site())
+        dispatch_rules(ctx, R, b)
     b = ctx.method(R + '/header/anchor', ST, 'read_header')
     if b is not None:
         lits = sorted({c.args[1]['v'].strip('"') for c in b.calls if c.item == 'strip_prefix' and len(c.args) > 1 and c.args[1]['k'] == 'const'})
         ctx.check(lits == ['NAME', 'OBJSENSE'], R + '/header/prefixes', 'T-TABLE', b.name, 'header prefixes are %s' % lits, b.site())
-        ps = [c for c in b.calls if c.item == 'parse']
-        errflow_calls(ctx, R + '/header/errors', b, ps, 'header keyword')
+        res = failure_is_error(ctx, R + '/header/errors', 'T-ERRFLOW', b, lambda v: v[1] == 'parse', 'Err')
+        if res is not None:
+            ctx.check(res[0] >= 1 and not res[1], R + '/header/errors', 'T-ERRFLOW', b.name, 'header keyword: %s' % ('; '.join(res[1][:2]) or 'nothing is parsed'), b.site())
     # ---- rows
     b = ctx.method('C17.rows/anchor', ST, 'read_row_field')
     if b is not None:
@@ -1062,23 +1214,24 @@ def parser_rules(ctx):
     for fn in ('read_column_field', 'read_range_field'):
         b = ctx.method('C17.keywords/undeclared-row/%s/anchor' % fn, ST, fn)
         if b is None: continue
-        # the row named by an entry is looked up in `a`; any of get / get_mut / get_key_value counts as the lookup
-        gm = [c for c in b.calls if c.item in ('get_mut', 'get', 'get_key_value') and 'HashMap::<' in c.name and mps_table_of(b, c.args[0]) == 'a']
-        ctx.check(len(gm) >= 1, 'C17.keywords/undeclared-row/%s/lookup' % fn, 'T-ERRFLOW', b.name, 'the row of an entry is never looked up in a (get / get_mut)', b.site())
-        bad = []; untyped = []
-        for c in gm:
-            res = T.errflow(b, c.dst['l'])
-            bad += [h for k, h in res if k == 'bad']
-            if not lookup_is_typed_error(ctx, b, c, 'UnknownRowName'): untyped.append(c)
-        ctx.check(not bad, 'C17.keywords/undeclared-row/%s/is-error' % fn, 'T-ERRFLOW', b.name, 'undeclared row: %s' % '; '.join(sorted(set(bad))), b.site(gm[0].bb) if gm else b.site())
-        ctx.check(bool(gm) and not untyped, 'C17.keywords/undeclared-row/%s/typed' % fn, 'T-ERRFLOW', b.name, 'undeclared row is not reported as UnknownRowName', b.site(untyped[0].bb) if untyped else b.site())
+        # the row named by an entry is looked up in `a` (get / get_mut / get_key_value); when it is not there, every path through
+        # the lookup returns Err(UnknownRowName) -- decided on paths, so `?`, match, let-else, helpers are the same
+        def is_lookup(v): return v[1] in ('get_mut', 'get', 'get_key_value') and 'HashMap::<' in v[2] and len(v[3]) == 2 and sx_table_of(v[3][0]) == 'a' and _key_class(v[3][1]) == 'row'
+        res = failure_is_error(ctx, 'C17.keywords/undeclared-row/%s/is-error' % fn, 'T-ERRFLOW', b, is_lookup, 'None', 'MpsParseError::UnknownRowName')
+        if res is None: continue
+        seen, probs = res
+        ctx.check(seen >= 1, 'C17.keywords/undeclared-row/%s/lookup' % fn, 'T-ERRFLOW', b.name, 'the row of an entry is never looked up in a (get / get_mut)', b.site())
+        goes_on = [x for x in probs if x.startswith('the function goes on')]; untyped = [x for x in probs if not x.startswith('the function goes on')]
+        ctx.check(seen >= 1 and not goes_on, 'C17.keywords/undeclared-row/%s/is-error' % fn, 'T-ERRFLOW', b.name, 'undeclared row: %s' % '; '.join(goes_on[:2]), b.site())
+        ctx.check(seen >= 1 and not goes_on and not untyped, 'C17.keywords/undeclared-row/%s/typed' % fn, 'T-ERRFLOW', b.name, 'undeclared row is not reported as UnknownRowName', b.site())
     for fn in ('read_column_field', 'read_rhs_field', 'read_range_field', 'read_bound_field'):
         b = ctx.F.one(ST, fn)
         if b is None: continue
-        ps = [c for c in b.calls if c.item == 'parse' and 'f64' in c.name]
-        ctx.check(bool(ps), 'C17.keywords/numbers/%s/parsed' % fn, 'T-ERRFLOW', b.name, 'no number is parsed', b.site())
-        bad = [h for c in ps for k, h in T.errflow(b, c.dst['l']) if k == 'bad']
-        ctx.check(not bad, 'C17.keywords/numbers/%s/error' % fn, 'T-ERRFLOW', b.name, 'unparsable number: %s' % '; '.join(sorted(set(bad))), b.site(ps[0].bb) if ps else b.site())
+        res = failure_is_error(ctx, 'C17.keywords/numbers/%s/error' % fn, 'T-ERRFLOW', b, lambda v: v[1] == 'parse' and 'f64' in v[2], 'Err')
+        if res is None: continue
+        seen, probs = res
+        ctx.check(seen >= 1, 'C17.keywords/numbers/%s/parsed' % fn, 'T-ERRFLOW', b.name, 'no number is parsed', b.site())
+        ctx.check(seen >= 1 and not probs, 'C17.keywords/numbers/%s/error' % fn, 'T-ERRFLOW', b.name, 'unparsable number: %s' % '; '.join(probs[:2]), b.site())
     # ---- rhs
     b = ctx.method('C17.rhs/anchor', ST, 'read_rhs_field')
     if b is not None:
@@ -1087,7 +1240,7 @@ def parser_rules(ctx):
         def is_b_insert(c): return c.item == 'insert' and mps_table_of(b, c.args[0]) == 'b'
         los = [lo for lo in T.for_loops(b) if any(c.bb in lo[4] and is_b_insert(c) for c in b.calls)]
         skipped = [lo for lo in los if not T.must_pass(b, lo[2], {lo[1]}, {c.bb for c in b.calls if c.bb in lo[4] and is_b_insert(c)})]
-        restr = sorted({x.item for lo in los for x in ctx.S.slice_operand(b, lo[0].args[0]).call_objs if x.item in RESTRICTING and 'Iterator' in (x.trait or '')})
+        restr = sorted({x.item for lo in los for x in ctx.S.slice_operand(b, lo[0].args[0]).call_objs if x.item in RESTRICTING and x.item not in ('step_by', 'skip') and 'Iterator' in (x.trait or '')})
         ctx.check(bool(los) and not skipped, 'C17.rhs/every-pair', 'T-LOOPMUST', b.name, 'a (row, value) pair of an RHS line can be passed without b.insert(row, value)' if los else 'no loop over the pairs of an RHS line', b.site())
         ctx.check(bool(los) and not restr, 'C17.rhs/every-pair/all-items', 'T-LOOPMUST', b.name, 'the loop over the pairs is restricted by %s' % restr, b.site())
     # ---- ranges: the RANGES sign table
@@ -1108,7 +1261,7 @@ def parser_rules(ctx):
         for lit, w in want.items():
             if lit not in tab: continue
             res = []
-            for val in (3.25, -1.5):
+            for val in (3.25, -1.5, 2e30):                   # a huge finite number is a number like any other
                 r = keyword_effects(ctx, 'C17.bounds/' + lit, b, {lit}, val)
                 if r is None: res = None; break
                 if not r: res.append(dict(eff={('no successful path',)}, keys=[], nums=[], stores=[]))
@@ -1138,8 +1291,8 @@ def _find_function(v):
     for x in sx_walk(v):
         if x[0] == 'agg' and x[1].endswith('function::Function::Constant') and x[3]: return ('Constant', x[3][0], None)
         if x[0] == 'agg' and x[1].endswith('function::Function::Linear') and x[3]:
-            lin = sx_strip(x[3][0])
-            if lin[0] == 'agg' and lin[1].endswith('v1::Linear') and 'constant' in lin[2] and 'terms' in lin[2]:
+            lin = sx_as_agg(x[3][0], 'v1::Linear') or ('undef', 0)
+            if lin[0] == 'agg' and 'constant' in lin[2] and 'terms' in lin[2]:
                 return ('Linear', lin[3][lin[2].index('constant')], lin[3][lin[2].index('terms')])
             return ('Linear', None, None)
     return None
@@ -1191,6 +1344,7 @@ class SignCase(SxOracle):
 def sign_rules(ctx, R, ib):
     """`a x (=|<=) b` becomes `a x - b (=|<=) 0`;  `a x >= b` becomes `-a x + b <= 0`  (a constant-only row included)"""
     want_eq = {'eq': {'EqualToZero'}, 'le': {'LessThanOrEqualToZero'}, 'ge': {'LessThanOrEqualToZero'}}
+    eqno = {v['name']: float(v['discr']) for v in (ctx.F.adt('v1::Equality') or {}).get('variants', [])}
     probs = []; n = 0
     for typ in ('eq', 'le', 'ge', None):
         for empty in (False, True):
@@ -1217,8 +1371,9 @@ def sign_rules(ctx, R, ib):
                     if not empty and not direct:
                         if rebuilt: pending.append(case)
                         else: probs.append('%s: the terms of the row are not carried' % case)
-                    eqs = {re.search(r'Equality::(\w+)', x[1]).group(1) for x in sx_walk(p.value) if x[0] == 'const' and 'Equality::' in x[1]}
-                    if typ and eqs != want_eq[typ]: probs.append('%s: equality is %s' % (case, sorted(eqs)))
+                    rv = sx_strip(p.value)                     # (function, equality as i32): the number is the schema's, however the cast is written
+                    eqv = sx.conc(rv[3][1], p) if rv[0] == 'agg' and rv[1] == 'tuple' and len(rv[3]) == 2 else None
+                    if typ and (eqv is None or eqv != eqno.get(next(iter(want_eq[typ])))): probs.append('%s: equality is %s' % (case, eqv))
                     if _negated_coefficients(sx, p): flipped += 1
             if pending and not rebuilds: probs.append('%s: the terms of the row are not carried' % pending[0])
             if not empty:
@@ -1323,8 +1478,8 @@ def bound_default_rules(ctx, rule, bb):
             for p in rets:
                 n += 1
                 for tab, item, args, res, bi in sx_table_calls(p): looked.add(BoundCase.TABS.get(tab))
-                v = sx_strip(p.value) if p.value is not None else ('undef', 0)
-                if v[0] == 'agg' and v[1].endswith('v1::Bound') and 'lower' in v[2] and 'upper' in v[2]:
+                v = sx_as_agg(p.value, 'v1::Bound') or ('undef', 0)
+                if v[0] == 'agg' and 'lower' in v[2] and 'upper' in v[2]:
                     got = (sx.conc(v[3][v[2].index('lower')], p), sx.conc(v[3][v[2].index('upper')], p))
                 else: got = (None, None)
                 if got != want:
@@ -1348,7 +1503,8 @@ class ParseCase(SxOracle):
 def recovery_rules(ctx, rule, names_rule, b, prefix_const, table, elem_adt, name_adt, what):
     """ids are recovered from the generated names only when EVERY name parses as <prefix><number>; otherwise ids go by
     order and the file's names are carried; every row / column yields an element either way.
-    The shape of the code is free: two loops under an `if any(..)`, one loop with a flag, `!any(is_none)` or `all(is_some)`."""
+    The shape of the code is free: two loops under an `if any(..)`, one loop with a flag, `!any(is_none)`, `all(is_some)` or
+    `collect::<Option<Vec<_>>>()` for the scan; loops with push, or iterator pipelines (map .. collect / unzip) for the elements."""
     def elem_push(c):
         if c.item not in ('push', 'insert', 'push_back'): return False
         for a in c.args[1:]:
@@ -1356,15 +1512,22 @@ def recovery_rules(ctx, rule, names_rule, b, prefix_const, table, elem_adt, name
             ex = T.strip_wrappers(T.expr(b, a, depth=4))
             if ex[0] == 'agg' and ex[1].endswith(elem_adt): return True
         return False
+    def elems_in(v):
+        v = sx_strip(v) if v is not None else ('undef', 0)
+        a = sx_as_agg(v, elem_adt)
+        if a is not None: return [a]
+        if v[0] == 'agg' and v[1] == 'tuple': return [x for m in v[3] for x in elems_in(m)]
+        return []
+    def is_elem_yield(e): return e[0] == 'yield' and (elem_adt in e[4] or bool(elems_in(e[1])))
     def sx_elems(p):
         out = []
         for e in p.events:
             if e[0] == 'call' and e[1] in ('push', 'insert', 'push_back'):
-                for a in e[3][1:]:
-                    a = sx_strip(a)
-                    if a[0] == 'agg' and a[1].endswith(elem_adt): out.append(a)
+                for a in e[3][1:]: out += elems_in(a)
+            elif is_elem_yield(e): out += elems_in(e[1])
         return out
     def fld(a, f): return a[3][a[2].index(f)] if f in a[2] else ('undef', 0)
+    def is_parse(x): return x[0] == 'call' and x[1] == 'parse_id_tag'
     loops = T.for_loops(b)
     push_loops = [lo for lo in loops if any(c.bb in lo[4] and elem_push(c) for c in b.calls)]
     push_loops = [lo for lo in push_loops if not any(set(o[4]) < set(lo[4]) and o in push_loops for o in push_loops)] or push_loops
@@ -1386,48 +1549,88 @@ def recovery_rules(ctx, rule, names_rule, b, prefix_const, table, elem_adt, name
         if ends['None'] and ends['None'] <= outside and ends['Some'] == {header}:
             guards.append((lo, ends['None']))
     ctx.check(len(guards) >= 1, rule + '/recovery-guard', 'T-GUARD', b.name, 'id recovery is not guarded by `every name parses as <prefix><number>` (a scan of all %s that stops at the first name that does not parse)' % what, b.site())
-    if not push_loops: ctx.bad(rule + '/every-element', 'T-LOOPMUST', b.name, 'no loop builds the %ss' % what, b.site())
-    if not guards or not push_loops: return
+    if not guards: return
     glo, hits = guards[0]; gheader = glo[1]
-    from_hit = T.reach_cp(b, sorted(hits))
+    # ---- the two sides, as paths from the entry: the scan meets a name that does not parse / every name parses
+    gen_ps = sx_paths(ctx, rule + '/ids-by-order', 'T-CARRY', b, ParseCase('None', set(glo[4])))
+    rec_ps = sx_paths(ctx, rule + '/ids-recovered', 'T-CARRY', b, ParseCase('Some'))
+    if gen_ps is None or rec_ps is None: return
+    gen_ps = [p for p in gen_ps if p.end in ('return', 'cut', 'stop') and any(h in p.visits for h in hits)]
+    rec_ps = [p for p in rec_ps if p.end in ('return', 'cut', 'stop') and glo[3] in p.visits and glo[2] in p.visits]      # the scan saw at least one name and ran to its end
+    yields = [e for p in gen_ps + rec_ps for e in p.events if is_elem_yield(e)]
+    if not push_loops and not yields: ctx.bad(rule + '/every-element', 'T-LOOPMUST', b.name, 'no loop / iterator pipeline builds the %ss' % what, b.site())
+    if not push_loops and not yields: return
+    # ---- every element is built: loops (one iteration, every path) and pipelines (no adaptor drops an item)
     skipped = []; restricted = []; undominated = []
     for lo in push_loops:
         nextc, header, some_bb, none_bb, blocks = lo
-        only_recovery = header not in from_hit and b.dominates(gheader, header)
-        if not b.dominates(gheader, header): undominated.append(lo)
+        # a loop no path reaches after the scan met a name that does not parse (whatever carries that fact: a branch, a flag, an
+        # Option) may rely on every name parsing
+        only_recovery = b.dominates(gheader, header) and not any(header in p.visits for p in gen_ps)
+        if not b.dominates(gheader, header): undominated.append(nextc.bb)
         ps = sx_loop_paths(ctx, rule + '/every-element', 'T-LOOPMUST', b, ParseCase('Some') if only_recovery else SxOracle(), lo)
         if ps is None: return
         done = [p for p in ps if p.end == 'stop']
-        if not done or any(not sx_elems(p) for p in done): skipped.append(lo)
+        if not done or any(not sx_elems(p) for p in done): skipped.append(nextc.bb)
         si = ctx.S.slice_operand(b, nextc.args[0])
-        if not si.has_field(MPS, table) or any(x.item in RESTRICTING and 'Iterator' in (x.trait or '') for x in si.call_objs): restricted.append(lo)
+        if not si.has_field(MPS, table) or any(x.item in RESTRICTING and 'Iterator' in (x.trait or '') for x in si.call_objs): restricted.append(nextc.bb)
+    for e in yields:
+        if e[1] is None or not elems_in(e[1]) or any(f in ('skipped', 'maybe-skipped') for f in e[3]): skipped.append(e[2])
+        if any(f.startswith('restricted') for f in e[3]) or not any(f == table and o.endswith('parser::Mps') for o, f in sx_fields(e[5])) or any(c[1] in RESTRICTING for c in sx_calls(e[5])): restricted.append(e[2])
+        if not b.dominates(gheader, e[2]): undominated.append(e[2])
+    for side, ps in (('when some name does not parse', gen_ps), ('when all names parse', rec_ps)):
+        if not any(sx_elems(p) for p in ps): skipped.append(glo[0].bb)
     ctx.check(not skipped and not undominated, rule + '/every-element', 'T-LOOPMUST', b.name,
-              'an element can be skipped without being built (other than a name that does not parse on the path where all names parse)' if skipped else 'a loop building the elements is not preceded by the `all names parse` scan',
-              b.site((skipped or undominated or push_loops)[0][0].bb))
-    ctx.check(not restricted, rule + '/all-elements', 'T-LOOPMUST', b.name, 'the loop does not run over all of Mps.%s' % table, b.site((restricted or push_loops)[0][0].bb))
-    # ---- general side: the paths through the early exit of the scan (some name does not parse)
-    gen = []
-    ps = sx_paths(ctx, rule + '/ids-by-order', 'T-CARRY', b, ParseCase('None', set(glo[4])))       # the scan meets a name that does not parse
-    if ps is None: return
-    for p in ps:
-        if p.end in ('return', 'cut', 'stop') and any(h in p.visits for h in hits): gen += sx_elems(p)
-    bad_ids = [a for a in gen if sx_calls(fld(a, 'id'), 'parse_id_tag')]
+              'an element can be skipped without being built (other than a name that does not parse on the path where all names parse)' if skipped else 'the code building the elements is not preceded by the `all names parse` scan',
+              b.site((skipped or undominated or [glo[0].bb])[0]))
+    ctx.check(not restricted, rule + '/all-elements', 'T-LOOPMUST', b.name, 'the elements are not built from all of Mps.%s' % table, b.site((restricted or [glo[0].bb])[0]))
+    # ---- general side
+    gen = [(p, a) for p in gen_ps for a in sx_elems(p)]
+    bad_ids = [a for p, a in gen if sx_derives(p, fld(a, 'id'), is_parse)]
     def named(a):
         nm = sx_strip(fld(a, 'name'))
         return nm[0] == 'agg' and nm[1].endswith('Option::Some') and any(o.endswith(name_adt) and f == '0' for o, f in sx_fields(nm))
-    unnamed = [a for a in gen if not named(a)]
+    unnamed = [a for p, a in gen if not named(a)]
     ctx.check(bool(gen) and not bad_ids, rule + '/ids-by-order', 'T-CARRY', b.name, 'when some name does not parse an id is still taken from a parsed name' if gen else 'no element is built when some name does not parse', b.site())
     ctx.check(bool(gen) and not unnamed, names_rule, 'T-CARRY', b.name, '%s names of the file are not carried (general branch)' % what, b.site())
-    # ---- recovery side: the paths through the exhaustion of the scan (all names parse)
-    rec = []
-    ps = sx_paths(ctx, rule + '/ids-recovered', 'T-CARRY', b, ParseCase('Some'))                    # every name parses
-    if ps is None: return
-    for p in ps:
-        if p.end in ('return', 'cut', 'stop') and glo[3] in p.visits: rec += sx_elems(p)
-    def recovered(a):
-        cs = sx_calls(fld(a, 'id'), 'parse_id_tag')
-        return bool(cs) and all(prefix_const in sx_str(c[3][0], 4) for c in cs)
-    ctx.check(bool(rec) and all(recovered(a) for a in rec), rule + '/ids-recovered', 'T-CARRY', b.name, 'when all names parse the id is not the number parsed after %s' % prefix_const, b.site())
+    # ---- recovery side
+    rec = [(p, a) for p in rec_ps for a in sx_elems(p)]
+    def recovered(p, a):
+        return sx_derives(p, fld(a, 'id'), lambda x: is_parse(x) and prefix_const in sx_str(x[3][0], 4)) and not sx_derives(p, fld(a, 'id'), lambda x: is_parse(x) and prefix_const not in sx_str(x[3][0], 4))
+    ctx.check(bool(rec) and all(recovered(p, a) for p, a in rec), rule + '/ids-recovered', 'T-CARRY', b.name, 'when all names parse the id is not the number parsed after %s' % prefix_const, b.site())
+    return gen + rec
+
+
+def _captured(bodies, bd, k):
+    """(body, operand) that closure `bd` captures as its k-th variable, looked up in the bodies that may create it"""
+    for pb in bodies:
+        for bi, st in pb.stmts():
+            if st['rv']['k'] == 'agg' and st['rv']['adt'] == 'closure:' + bd.name and k < len(st['rv']['ops']): return pb, st['rv']['ops'][k]
+    return None
+
+
+def site_table(ctx, bodies, bd, a, depth=3):
+    """the Mps table an argument at a call site denotes; a variable captured by a closure is followed to where the closure is made"""
+    t = mps_table_of(bd, a)
+    if t: return t
+    if bd.kind == 'closure' and depth > 0:
+        fs, root, calls = T.access_path(bd, a)
+        if root == 1 and fs and fs[0][1].isdigit():
+            cap = _captured(bodies, bd, int(fs[0][1]))
+            if cap: return site_table(ctx, bodies, cap[0], cap[1], depth - 1)
+    x = [f for a_, f in ctx.S.slice_operand(bd, a).fields if a_.endswith('parser::Mps')][:1]
+    return x[0] if x else None
+
+
+def site_depends_on(ctx, bodies, bd, a, adt, field, depth=3):
+    s = ctx.S.slice_operand(bd, a)
+    if s.has_field(adt, field): return True
+    if bd.kind == 'closure' and depth > 0:
+        for par, a_, f in s.root_fields:
+            if par == 1 and f.isdigit():
+                cap = _captured(bodies, bd, int(f))
+                if cap and site_depends_on(ctx, bodies, cap[0], cap[1], adt, field, depth - 1): return True
+    return False
 
 
 def convert_rules(ctx):
@@ -1435,11 +1638,17 @@ def convert_rules(ctx):
     b = ctx.free_fn(R + '/anchor', 'mps::convert::convert')
     if b is None: return
     cover(ctx, R + '.cover', b, MPS)
-    aggs = find_aggregates(b, 'v1::Instance')
-    ctx.check(len(aggs) >= 1, R + '/instance', 'T-CARRY', b.name, 'no v1::Instance is built', b.site())
-    for f, fn in (('description', 'convert_description'), ('decision_variables', 'convert_dvars'), ('objective', 'convert_objective'), ('constraints', 'convert_constraints'), ('sense', 'convert_sense')):
-        ok = bool(aggs) and all(any(c.item == fn for c in slice_op(ctx, b, agg_field_operand(st, f)).call_objs) for bi, st in aggs)
-        ctx.check(ok, R + '/instance/' + f, 'T-CARRY', b.name, 'Instance.%s does not come from %s' % (f, fn), b.site(aggs[0][0]) if aggs else b.site())
+    # the returned instance, read off the value: a struct expression or default() + field assignments alike
+    ps = sx_paths(ctx, R + '/instance', 'T-CARRY', b, SxOracle())
+    if ps is not None:
+        insts = []
+        for p in ps:
+            if p.end == 'return' and p.value is not None:
+                insts += [a for a in (sx_as_agg(x, 'v1::Instance') for x in sx_walk(p.value) if x[0] in ('agg', 'upd')) if a is not None][:1]
+        ctx.check(len(insts) >= 1, R + '/instance', 'T-CARRY', b.name, 'no v1::Instance is returned', b.site())
+        for f, fn in (('description', 'convert_description'), ('decision_variables', 'convert_dvars'), ('objective', 'convert_objective'), ('constraints', 'convert_constraints'), ('sense', 'convert_sense')):
+            ok = bool(insts) and all(f in a[2] and bool(sx_calls(a[3][a[2].index(f)], fn)) for a in insts)
+            ctx.check(ok, R + '/instance/' + f, 'T-CARRY', b.name, 'Instance.%s does not come from %s' % (f, fn), b.site())
     # sense
     sb = ctx.free_fn(R + '.sense/anchor', 'mps::convert::convert_sense')
     if sb is not None:
@@ -1471,19 +1680,20 @@ def convert_rules(ctx):
         ctx.check(rows == {2: ['Integer'], 3: ['Binary'], 4: ['Continuous']}, R + '.kind/mapping', 'T-BRANCHFX', kb.name, 'membership in (integer, binary, real) maps to %s' % rows, kb.site())
     dv = ctx.free_fn(R + '.kind/dvars/anchor', 'mps::convert::convert_dvars')
     if dv is not None:
-        def tables_of(c, start):
-            fs = [mps_table_of(dv, a) or [f for a_, f in ctx.S.slice_operand(dv, a).fields if a_.endswith('parser::Mps')][:1] for a in c.args[start:]]
-            return [x if isinstance(x, str) else (x[0] if x else None) for x in fs]
-        ks = [tables_of(c, 1) for c in dv.calls if c.item == 'get_dvar_kind']
+        # the call sites may sit in the function or in a closure of an iterator pipeline that is not a loop in the normal form
+        bodies = [dv] + list(ctx.F.closures_of(dv))
+        def tables_of(bd, c, start): return [site_table(ctx, bodies, bd, a) for a in c.args[start:]]
+        ks = [tables_of(bd, c, 1) for bd in bodies for c in bd.calls if c.item == 'get_dvar_kind']
         ctx.check(bool(ks) and all(k == ['integer', 'binary', 'real'] for k in ks), R + '.kind/dvars/argument-order', 'T-CARRY', dv.name, 'get_dvar_kind receives tables %s, expected (integer, binary, real)' % ks, dv.site())
-        bs = [tables_of(c, 1) for c in dv.calls if c.item == 'get_dvar_bound']
+        bs = [tables_of(bd, c, 1) for bd in bodies for c in bd.calls if c.item == 'get_dvar_bound']
         ctx.check(bool(bs) and all(k == ['l', 'u'] for k in bs), R + '.defaults/dvars/argument-order', 'T-CARRY', dv.name, 'get_dvar_bound receives tables %s, expected (l, u)' % bs, dv.site())
-        aggs = find_aggregates(dv, 'v1::DecisionVariable')
-        def bound_set(st):
-            bs_ = T.expr(dv, agg_field_operand(st, 'bound'))
-            return bs_[0] == 'agg' and bs_[1].endswith('Option::Some') and T.expr_has_call(bs_, 'get_dvar_bound')
-        ctx.check(bool(aggs) and all(bound_set(st) for bi, st in aggs), R + '.defaults/dvars/bound-set', 'T-CARRY', dv.name, 'variable bound is not Some(get_dvar_bound(..))', dv.site())
-        recovery_rules(ctx, R + '.vars', 'C17.names/variables', dv, 'VAR_PREFIX', 'vars', 'v1::DecisionVariable', 'parser::ColumnName', 'variable')
+        elems = recovery_rules(ctx, R + '.vars', 'C17.names/variables', dv, 'VAR_PREFIX', 'vars', 'v1::DecisionVariable', 'parser::ColumnName', 'variable')
+        # every variable built (on either side) has bound = Some(get_dvar_bound(..)): read off the elements themselves
+        def bound_set(a):
+            bv = sx_strip(a[3][a[2].index('bound')]) if 'bound' in a[2] else ('undef', 0)
+            return bv[0] == 'agg' and bv[1].endswith('Option::Some') and bool(sx_calls(bv, 'get_dvar_bound'))
+        if elems is not None:
+            ctx.check(bool(elems) and all(bound_set(a) for p, a in elems), R + '.defaults/dvars/bound-set', 'T-CARRY', dv.name, 'variable bound is not Some(get_dvar_bound(..))', dv.site())
     # bound defaults
     bb = ctx.free_fn(R + '.defaults/anchor', 'mps::convert::get_dvar_bound')
     if bb is not None:
@@ -1504,10 +1714,11 @@ def convert_rules(ctx):
     if ib is not None: sign_rules(ctx, R, ib)
     cb_ = ctx.free_fn(R + '.rows/anchor', 'mps::convert::convert_constraints')
     if cb_ is not None:
-        cis = [c for c in cb_.calls if c.item == 'convert_inequality']
-        def tabs(c): return [mps_table_of(cb_, a) or ([f for a_, f in ctx.S.slice_operand(cb_, a).fields if a_.endswith('parser::Mps')][:1] or [None])[0] for a in c.args[3:]]
-        ctx.check(bool(cis) and all(tabs(c) == ['eq', 'ge', 'le'] for c in cis), R + '.sign/rows/argument-order', 'T-CARRY', cb_.name, 'convert_inequality receives tables %s, expected (eq, ge, le)' % [tabs(c) for c in cis], cb_.site())
-        ctx.check(bool(cis) and all(ctx.S.slice_operand(cb_, c.args[1]).has_field(MPS, 'b') for c in cis), R + '.sign/rows/rhs-from-b', 'T-CARRY', cb_.name, 'right-hand side does not come from b', cb_.site())
+        bodies = [cb_] + list(ctx.F.closures_of(cb_))
+        cis = [(bd, c) for bd in bodies for c in bd.calls if c.item == 'convert_inequality']
+        def tabs(bd, c): return [site_table(ctx, bodies, bd, a) for a in c.args[3:]]
+        ctx.check(bool(cis) and all(tabs(bd, c) == ['eq', 'ge', 'le'] for bd, c in cis), R + '.sign/rows/argument-order', 'T-CARRY', cb_.name, 'convert_inequality receives tables %s, expected (eq, ge, le)' % [tabs(bd, c) for bd, c in cis], cb_.site())
+        ctx.check(bool(cis) and all(site_depends_on(ctx, bodies, bd, c.args[1], MPS, 'b') for bd, c in cis), R + '.sign/rows/rhs-from-b', 'T-CARRY', cb_.name, 'right-hand side does not come from b', cb_.site())
         recovery_rules(ctx, R + '.rows', 'C17.names/constraints', cb_, 'CONSTR_PREFIX', 'a', 'v1::Constraint', 'parser::RowName', 'constraint')
 
 
@@ -1517,5 +1728,5 @@ def check(ctx):
     # count does not depend on how the code is laid out)
     for fam, n in {'C17.bounds': 19, 'C17.columns': 2, 'C17.convert': 6, 'C17.convert.cover': 15, 'C17.convert.defaults': 5, 'C17.convert.kind': 2,
                    'C17.convert.rows': 5, 'C17.convert.sense': 1, 'C17.convert.sign': 6, 'C17.convert.terms': 1, 'C17.convert.vars': 5, 'C17.defaults': 1,
-                   'C17.keywords': 39, 'C17.names': 2, 'C17.ranges': 7, 'C17.rhs': 3, 'C17.rows': 4}.items():
+                   'C17.keywords': 33, 'C17.names': 2, 'C17.ranges': 7, 'C17.rhs': 3, 'C17.rows': 4}.items():
         ctx.floor(fam, n)
